@@ -32,6 +32,7 @@ SEEDS = {
  "s3-C03c": ("C03", ["C03", "C20"], "tuples with additionalItems classified as arrays (two cooperating edits in schema.go): stay inline after full flatten"),
  "s3-C05c": ("C05", ["C05"], "Expand + remote self-recursive definition referring twice to a $ref-free remote definition whose name collides with a root definition"),
  "s3-C08c": ("C08", ["C08", "C02"], "a pointer whose simple target (array/map) itself holds a pointer, each with a single caller: pointers nested in pointer targets are W+ (outside W)"),
+ "s3-C09c": ("C09", ["C09"], "the k-th load fails while importing a remote definition whose name also exists in the root: the error is swallowed by a fallback to the root document (Minimal/full only)"),
  "s3-C10c": ("C10", ["C10"], "any anonymous pointer that goes through flattenAnonPointer: Flatten re-assigns its own copy of opts.Spec"),
  "s3-C11c": ("C11", ["C11"], "a path item that has both a $ref and sibling operations/parameters holding $refs"),
  "s3-C13c": ("C13", ["C13", "C12"], "property names containing '/' or '~' (escaped twice) with a pattern/enum at or below them"),
